@@ -116,9 +116,15 @@ def acc_C14(w):
 def acc_C15(w):
     sim = w.runner.simulator
     meta = w.scn.meta
-    rule = meta["limit_rule"]  # dict(targets=[names], r=.., enabled=bool)
-    targets = set(rule["targets"]) if rule["enabled"] else set()
-    r = rule["r"]
+    rules = meta.get("limit_rules") or [meta["limit_rule"]]  # dicts(targets=[names], r=.., enabled=bool); disjoint target sets
+    rate_of = {}
+    for ru in rules:
+        if ru["enabled"]:
+            for name in ru["targets"]:
+                rate_of[name] = ru["r"]
+    targets = set(rate_of)
+    if len(rules) > 1:
+        w.wit.inc("two_rules_in_one_run")
     p0s = {}
     for e in w.ev:
         if e[0] == "acc":
@@ -136,6 +142,7 @@ def acc_C15(w):
                 continue
             p = ret[4]
             p0 = info["mp0"]
+            r = rate_of[m.name]
             lo, hi = p0 * (1 - r), p0 * (1 + r)
             clipped = min(max(p, lo), hi)
             want = clipped if clipped % m.tick_size == 0 else tick_round(clipped, m.tick_size, l.is_buy)
@@ -158,6 +165,7 @@ def acc_C15(w):
             m = sim.id2market[e[1]]
             if m.name in targets and len(p0s.get(m.name, ())) == 1 and e[4]["mp0"] in p0s[m.name]:
                 p0 = e[4]["mp0"]
+                r = rate_of[m.name]
                 for f in e[2]:
                     V(p0 * (1 - r) - m.tick_size <= f.price <= p0 * (1 + r) + m.tick_size, "C15.fill_band",
                       "a trade on a target market happened outside the band widened by one tick", "price %s p0 %s r %s" % (f.price, p0, r))
@@ -241,6 +249,8 @@ def acc_C16(w):
                 w.wit.inc("order_or_cancel_accepted_during_halt")
         elif k == "round":
             mid, fills, running, post = e[1], e[2], e[3], e[4]
+            if fills and t == 0 and post["mp0"] != 100.0:
+                w.wit.inc("time0_price_moved_by_trades_in_step0")
             if fills:
                 V(running, "C16.fill_while_stopped", "a fill was recorded on a market that is not running", "market %s step %d" % (mid, t))
                 V(mid not in halted, "C16.fill_during_halt", "a fill was recorded on a halted market", "market %s step %d" % (mid, t))
